@@ -5,20 +5,7 @@ from ekw import sim_ctrl as S
 from ekw.core import lean_drive
 
 LEAN_DRIVERS = ["Ctrl"]
-RULE = ("random job DAGs (0-8 tasks quick / 0-14 thorough; chains, diamonds, fan-in/out, multi-output tasks, isolated tasks, several "
-        "components, GPU tasks, any subset of requested outputs incl. non-sinks; family wide, two cases per run + 0.5 %: 33-45 source tasks "
-        "under a shallow join tree in one or two components on 8-15 hosts x 3-4 workers, so that one assign() round hands out >= 32 commands "
-        "(counted: rounds_with_32_or_more_assignments), each replayed by a driver process of its own) x clusters (1-3 hosts x 1-3 workers, GPU subsets "
-        "keeping the job feasible) x adversarial seeded schedules of the abstract executors (any order + batching of events, and "
-        "FIFO-per-production order; task bodies publish their outputs one at a time while controller rounds go on; in half of the runs executor steps also happen "
-        "BETWEEN the bridge calls of one controller round; transfer notices that travel slowly; a third of the runs with a report address, i.e. through the real Reporter; in half of the runs the "
-        "values of requested outputs reach the controller wrapped in StrictVal, a value whose ==/!=/bool raise like those of arrays do, so that any look at a delivered "
-        "value other than `is` is a controller exception); "
-        "the REAL controller.impl.run is driven in-process through SimBridge, which interprets everything a command carries at the Bridge API (a body publishes only the "
-        "outputs named in TaskSequence.publish); at initialisation, after assign()+act(), after plan(), after flush_queues() and after notify() the abstraction of the real State "
-        "(incl. published_outputs) is compared with the Lean model, the commands incl. their publish sets and their order (up to set/dict iteration order), the scan order of "
-        "ds2host in build_assignment, the number of loop iterations against roundBound; the real Bridge's routing of the four calls and of shutdown is checked on a shell object. "
-        "non-trivial = run with >=1 inter-host transfer or >=1 fetch or >=1 purge; distinct by hash of (job, cluster, schedule seed)")
+RULE = ("random job DAGs (0-8 tasks quick / 0-14 thorough; chains, diamonds, fan-in/out, multi-output tasks, isolated tasks, several components; in ~70 % of the jobs upstream inputs arrive through KEYWORD edges (Task2TaskEdge.sink_input_kw: tasks fed only by keyword edges, tasks with both kinds, a dataset consumed by keyword here and by position there) and tasks carry 0-2 static keyword and 0-2 static positional inputs - for the model a keyword edge is one more input; ~30 % of the ordinary jobs have tasks with 4-6 outputs and 4-8 parameters (the same dataset may feed several); counted per run: edges_keyword, tasks_fed_only_by_keyword_edges, static_inputs_*, tasks_with_4_to_6_outputs, tasks_with_4_to_8_parameters; GPU tasks, any subset of requested outputs incl. non-sinks; family wide, two cases per run + 0.5 %: 33-45 source tasks under a shallow join tree in one or two components on 8-15 hosts x 3-4 workers, so that one assign() round hands out >= 32 commands (counted: rounds_with_32_or_more_assignments), each replayed by a driver process of its own) x clusters (1-3 hosts x 1-3 workers, GPU subsets keeping the job feasible) x adversarial seeded schedules of the abstract executors (any order + batching of events, and FIFO-per-production order; task bodies publish their outputs one at a time while controller rounds go on; in half of the runs executor steps also happen BETWEEN the bridge calls of one controller round; transfer notices that travel slowly; a third of the runs with a report address, i.e. through the real Reporter; in half of the runs the values of requested outputs reach the controller wrapped in StrictVal, a value whose ==/!=/bool raise like those of arrays do, so that any look at a delivered value other than `is` is a controller exception); the REAL controller.impl.run is driven in-process through SimBridge, which interprets everything a command carries at the Bridge API (a body publishes only the outputs named in TaskSequence.publish); at initialisation, after assign()+act(), after plan(), after flush_queues() and after notify() the abstraction of the real State (incl. published_outputs) is compared with the Lean model, the commands incl. their publish sets and their order (up to set/dict iteration order), the scan order of ds2host in build_assignment, the number of loop iterations against roundBound; the real Bridge's routing of the four calls and of shutdown is checked on a shell object; C02 also drives the real Bridge.__init__ with the registration messages of real Executor.__init__ calls (1-4 hosts x 1-13 workers x 0..n+1 GPUs, random batching, empty polls, repeated registrations) and compares the Environment with what was registered; the Lean drivers decide WF/WFC/Feasible of every replayed input; in 15 % of the cases the SAME JobInstance and the SAME Preschedule object are run again (a fifth of these a third time) with a fresh SimBridge and schedule seed and the last run is compared with the model from `init` like a first run; the Preschedule is fingerprinted before the first and after every run (oracle kind preschedule-mutated). non-trivial = run with >=1 inter-host transfer or >=1 fetch or >=1 purge; distinct by hash of (job, cluster, schedule seed)")
 ASSUMPTIONS = [
     "executors are abstract (SimBridge mirrors Env of Model/Ctrl.lean plus the non-atomic layer Model/CtrlN.lean): a dispatched task starts once its inputs are in its host's store and publishes its outputs in index order, one environment step per output (in a quarter of the runs all at once), with controller rounds, deliveries, transfers and other bodies interleaved; transmit/fetch read the source store; purge is immediate",
     "executor steps happen inside recv_events and (half of the runs) between the bridge calls of a round; a step that falls between the commands of one model micro-step (the transmits and the task command of one assignment, the purges of one dataset) is replayed right after that micro-step",
@@ -93,6 +80,8 @@ def correspond(ctx, prop):
     for f in sorted(glob.glob(str(CORPUS_DIR / "Ctrl_*.json"))):
         corpus.append(json.load(open(f)))
     cases = list(corpus)
+    import random as _random
+    rerun_rng = _random.Random(ctx.rng.randrange(1 << 30))
     from concurrent.futures import ThreadPoolExecutor
     wide_pool = ThreadPoolExecutor(max_workers=4 if prop == "C01" else 6)      # C01 runs real clusters beside this
     wide_jobs = []
@@ -109,7 +98,12 @@ def correspond(ctx, prop):
             case["none_output"] = list(rng.choice(spec["ext"]))
         cases.append(case)
     for ci, c in enumerate(cases):
-        res = S.run_case(c["spec"], c["workers"], c["seed"], c["fifo"], none_output=c.get("none_output"), report=c.get("report", False))
+        res = S.run_case(c["spec"], c["workers"], c["seed"], c["fifo"], none_output=c.get("none_output"), report=c.get("report", False), prior_seeds=c.get("prior_seeds", ()))
+        if ci >= len(corpus) and not c.get("prior_seeds") and c["spec"].get("family") != "wide" and c.get("none_output") is None and rerun_rng.random() < 0.15:
+            # the same (JobInstance, Preschedule) is run again - a second and, in a fifth of these, a third time - with a fresh
+            # SimBridge and schedule seed; the observed (last) run is compared with the model like any first run
+            ps = [c["seed"]] + ([rerun_rng.randrange(1 << 30)] if rerun_rng.random() < 0.2 else [])
+            cases.append(dict(c, seed=rerun_rng.randrange(1 << 30), prior_seeds=ps))
         if ci < len(corpus) and c.get("expect_note") and not res["stats"]["notes"].get(c["expect_note"]):
             # a witness of a situation (not a failure): look for a schedule seed under which this job/cluster shows it
             for extra in range(1, 200):
@@ -120,7 +114,14 @@ def correspond(ctx, prop):
                     res = r2
                     break
         if ci < len(corpus) and c.get("expect_note"):
-            ctx.count(("witness_replayed:" if res["stats"]["notes"].get(c["expect_note"]) else "witness_NOT_reproduced:") + c["expect_note"])
+            shown = bool(res["stats"]["notes"].get(c["expect_note"]))
+            ctx.count(("witness_replayed:" if shown else "witness_NOT_reproduced:") + c["expect_note"])
+            if not shown and prop == "C04":
+                # the witness of c04_transfer_notice_full_fails no longer shows on the real code under any of 200 schedules: the
+                # model (in which it is reachable) and the code have parted - a broken correspondence, not a statistic
+                ctx.disagree("corpus-witness-not-reproduced", {"spec": c["spec"], "workers": c["workers"], "seed": c["seed"], "fifo": c["fifo"]},
+                             "situation `" + c["expect_note"] + "` is reachable (theorem c04_transfer_notice_full_fails)",
+                             "not seen on the real controller under 200 schedule seeds")
         if ci < len(corpus) and c.get("expect_fail") and not any(p == prop for (p, _, _) in S.oracle(res, c["fifo"])):
             # a corpus witness depends on the scheduler's set-iteration order (PYTHONHASHSEED follows VERIF_SEED):
             # look for a schedule seed under which this job/cluster reproduces its finding
@@ -145,13 +146,27 @@ def correspond(ctx, prop):
             runs, batch_cases = [], []   # traces are large: keeping thousands alive makes the GC pauses exceed run_case's alarm
         st = res["stats"]
         nontrivial = st["transmits"] + st["fetches"] + st["purges"] > 0
-        ctx.case({"spec": c["spec"], "workers": c["workers"], "seed": c["seed"], "fifo": c["fifo"], "none_output": c.get("none_output"), "report": c.get("report", False)}, nontrivial=nontrivial)
+        ctx.case({"spec": c["spec"], "workers": c["workers"], "seed": c["seed"], "fifo": c["fifo"], "none_output": c.get("none_output"), "report": c.get("report", False),
+                  "prior_seeds": list(c.get("prior_seeds", ()))}, nontrivial=nontrivial)
+        if c.get("prior_seeds"):
+            ctx.count("runs_on_a_Preschedule_already_used_by_%d_earlier_run(s)" % len(c["prior_seeds"]))
         if c.get("report"):
             ctx.count("runs_with_a_report_address(real Reporter)")
         if c.get("none_output") is not None:
             ctx.count("runs_with_a_None_valued_requested_output")
         ctx.count("runs_fifo" if c["fifo"] else "runs_anyorder")
         ctx.count("tasks_total", st["tasks"])
+        tks = c["spec"]["tasks"]
+        nkw = sum(t.get("nkw", 0) for t in tks)
+        ctx.count("edges_keyword(sink_input_kw)", nkw)
+        ctx.count("edges_positional", sum(len(t["params"]) - t.get("nkw", 0) for t in tks))
+        if nkw:
+            ctx.count("jobs_with_keyword_edges")
+        ctx.count("tasks_fed_only_by_keyword_edges", sum(1 for t in tks if t["params"] and t.get("nkw", 0) == len(t["params"])))
+        ctx.count("static_inputs_kw", sum(t.get("skw", 0) for t in tks))
+        ctx.count("static_inputs_ps", sum(t.get("sps", 0) for t in tks))
+        ctx.count("tasks_with_4_to_6_outputs", sum(1 for t in tks if t["nOut"] >= 4))
+        ctx.count("tasks_with_4_to_8_parameters", sum(1 for t in tks if len(t["params"]) >= 4 and c["spec"].get("family") is None))
         for k in ("transmits", "fetches", "purges"):
             ctx.count(k, st[k])
         ctx.count("controller_rounds", res["rounds"])
@@ -174,6 +189,8 @@ def correspond(ctx, prop):
             if p != prop:
                 continue
             sig = {"kind": kind, "adversary": "fifo" if c["fifo"] else "anyOrder"}
+            if kind == "purge-before-transfer-notice":
+                sig["transfer"] = detail[2] if isinstance(detail, (list, tuple)) and len(detail) > 2 else "?"
             if prop == "C03" and not c["fifo"] and kind in ("finished-with-tasks-unrun", "livelock-or-unbounded-rounds", "requested-output-not-fetched"):
                 sig["cause"] = "last-output-notice-overtook-earlier" if last_overtook(res["trace"]) else "other"
             if prop == "C01" and not c["fifo"] and kind in ("requested-output-not-delivered", "run-did-not-return-requested-outputs"):
@@ -183,13 +200,15 @@ def correspond(ctx, prop):
                 sig["cause"] = "none-valued-output"
 
             def pred(spec2, ws2, kind=kind, c=c):
-                r2 = S.run_case(spec2, ws2, c["seed"], c["fifo"], none_output=c.get("none_output"), report=c.get("report", False))
+                r2 = S.run_case(spec2, ws2, c["seed"], c["fifo"], none_output=c.get("none_output"), report=c.get("report", False), prior_seeds=c.get("prior_seeds", ()))
                 return any(p2 == prop and k2 == kind for (p2, k2, _) in S.oracle(r2, c["fifo"]))
             small = shrink_case(c, pred, budget_s=20.0 if c["spec"].get("family") == "wide" else 60.0) if len(ctx.violations) < 3 else c
             if c.get("none_output") is not None:
                 small["none_output"] = c["none_output"]
             if c.get("report"):
                 small["report"] = True
+            if c.get("prior_seeds"):
+                small["prior_seeds"] = list(c["prior_seeds"])
             ctx.violation(sig, small, f"{kind}: {detail} (job with {len(small['spec']['tasks'])} tasks on {len(small['workers'])} workers, schedule seed {c['seed']}, {'fifo' if c['fifo'] else 'anyOrder'})")
     _replay_batch(ctx, prop, runs, batch_cases)
     try:
@@ -219,15 +238,15 @@ def _compare_batch(ctx, prop, runs, cases, out):
         m = len(r["trace"])
         mo = out[k:k + m]
         k += m
-        if c.get("none_output") is not None:
-            continue   # the model's values are never None: this case only replays a known finding on the implementation
         ctx.traces += 1
         sn = S.soft_notes(mo)
         if sn:
             ctx.count("transmit_source_other_than_first_available_of_the_scan", sn)
-        d = S.compare(r["trace"], mo)
+        # a run with a None-valued requested output is compared like any other, except for that output's entry of State.outputs
+        # (the model's values are terms, never None)
+        d = S.compare(r["trace"], mo, skip_output=c.get("none_output"))
         if d:
-            ctx.disagree("controller-phase", {"spec": c["spec"], "workers": c["workers"], "seed": c["seed"], "fifo": c["fifo"]}, d.get("model"), {k2: v for k2, v in d.items() if k2 != "model"})
+            ctx.disagree("controller-phase", {"spec": c["spec"], "workers": c["workers"], "seed": c["seed"], "fifo": c["fifo"], "report": c.get("report", False), "prior_seeds": list(c.get("prior_seeds", ())), "none_output": c.get("none_output")}, d.get("model"), {k2: v for k2, v in d.items() if k2 != "model"})
             continue
         # sequential reference: model's `den` vs the harness' interpreter; delivered outputs vs both
         m0 = json.loads(mo[0])
@@ -238,7 +257,7 @@ def _compare_batch(ctx, prop, runs, cases, out):
         mf = S.model_final(mo)
         if mf is not None:
             mv = sorted(set(mf["env"]["viol"]))
-            iv = sorted({kind for kind, _ in r["viol"]} - {"C04 purge-before-transfer-notice"})   # not a monitor of the model
+            iv = sorted({kind for kind, _ in r["viol"]} - S.NOT_MODEL_MONITORS)
             if mv != iv:
                 ctx.disagree("monitors", {"spec": c["spec"], "workers": c["workers"], "seed": c["seed"], "fifo": c["fifo"]}, mv, iv)
             if r["outcome"] == "finished" and "present" in mf["env"]:
@@ -251,6 +270,8 @@ def _compare_batch(ctx, prop, runs, cases, out):
             if r["outcome"] == "finished":
                 mo_out = {(t, kk): v for t, kk, v in mf["ctl"]["outputs"]}
                 for d_, v in r["outputs"].items():
+                    if c.get("none_output") is not None and list(d_) == list(c["none_output"]):
+                        continue
                     if mo_out.get(d_) != v:
                         ctx.disagree("outputs", c["spec"], mo_out.get(d_), v)
 
@@ -262,30 +283,112 @@ def bridge_shell(ctx, prop):
     mine = {"C02": ("task",), "C03": ("shutdown",), "C04": ("transmit", "fetch", "purge", "idx")}[prop] if prop in ("C02", "C03", "C04") else ()
     if not mine:
         return
+    if prop == "C02":
+        # what the controller believes about the workers (Environment built by the real Bridge.__init__ from the real
+        # executors' registration messages): C02 clause "a worker that exists ... and satisfies the task's GPU requirement"
+        seen = set()
+        lines, impls, seeds = [], [], []
+        for _ in range(ctx.budget(25, 250)):
+            seed = ctx.rng.randrange(1 << 30)
+            fails, counts = ctrl_bridge.check_bridge_init(random.Random(seed))
+            line, impl_ = counts.pop("_model_line", None), counts.pop("_impl", None)
+            if line is not None and impl_ is not None:
+                lines.append(json.dumps(line)); impls.append(impl_); seeds.append(seed)
+            for k, v in counts.items():
+                ctx.count(k, v)
+            ctx.case({"bridge_init_seed": seed}, nontrivial=True)
+            for kind, detail in fails:
+                if kind not in seen:
+                    seen.add(kind)
+                    ctx.violation({"kind": kind}, {"bridge_init_seed": seed}, f"real Bridge.__init__ fed with the real executors' registrations: {kind}: {detail}")
+        # the same registration traffic through Model/BridgeInit.lean (theorem c02_env_matches_registration): Environment in
+        # insertion order and the registered hosts in order
+        if lines:
+            out = lean_drive("C02X", lines)
+            for mo, impl_, seed in zip(out, impls, seeds):
+                ctx.traces += 1
+                m = json.loads(mo)
+                if m.get("env") != impl_["env"] or m.get("hosts") != impl_["hosts"]:
+                    ctx.disagree("bridge-init", {"bridge_init_seed": seed}, m, impl_)
+    # every failure kind of the shell is owned by exactly one property: by the call it concerns (task -> C02, shutdown -> C03,
+    # transmit/fetch/purge/index -> C04); a kind that names no call is reported by all three; each distinct kind once
+    owner = {"task": "C02", "shutdown": "C03", "transmit": "C04", "fetch": "C04", "purge": "C04", "idx": "C04"}
+    seen = set()
     for _ in range(ctx.budget(40, 400)):
         seed = ctx.rng.randrange(1 << 30)
         fails, counts = ctrl_bridge.check_bridge(random.Random(seed))
         for k, v in counts.items():
             ctx.count(k, v)
         for kind, detail in fails:
-            what = str(detail)
-            if any(m in what or m in kind for m in mine) or kind == "bridge-call-raised":
+            call = detail[0] if isinstance(detail, (list, tuple)) and detail and isinstance(detail[0], str) else ""
+            own = owner.get(call) or next((p for m, p in owner.items() if m in kind), None)
+            if (own is None or own == prop) and kind not in seen:
+                seen.add(kind)
                 ctx.violation({"kind": kind}, {"bridge_shell_seed": seed}, f"real Bridge: {kind}: {detail}")
-                break
+
+
+def tie_diff(prop, c):
+    """run the case on the real controller, replay its trace on the Lean model, return the first disagreement (or None)"""
+    res = S.run_case(c["spec"], c["workers"], c["seed"], c["fifo"], none_output=c.get("none_output"), report=c.get("report", False), prior_seeds=c.get("prior_seeds", ()))
+    out = lean_drive("CtrlX" if prop == "C03" else "Ctrl", S.model_lines(res["trace"]))
+    d = S.compare(res["trace"], out, skip_output=c.get("none_output"))
+    if d is None:
+        mf = S.model_final(out)
+        if mf is not None:
+            mv = sorted(set(mf["env"]["viol"]))
+            iv = sorted({kind for kind, _ in res["viol"]} - S.NOT_MODEL_MONITORS)
+            if mv != iv:
+                d = {"at": "end", "op": "monitors", "model": mv, "impl": iv}
+    return d, res
+
+
+def search(ctx, why, prop):
+    """the correspondence with the model is broken: name ONE input on which the real controller departs from the model the
+    theorems are about (a failing input of the tie: `./check replay` re-runs it on the real code and on the model)"""
+    for dis in ctx.disagreements:
+        c = dis.get("case")
+        if dis.get("where") not in ("controller-phase", "monitors", "stores-at-exit") or not isinstance(c, dict) or "spec" not in c:
+            continue
+        try:
+            d, _ = tie_diff(prop, c)
+        except Exception as e:
+            d = {"op": "replay", "field": "harness", "model": None, "impl": repr(e)[:200]}
+        if d:
+            fld = str(d.get("field") or d.get("op"))[:60]
+            ctx.violation({"kind": "real-controller-departs-from-the-model", "field": fld}, dict(c, tie=True),
+                          f"the real controller departs from the Lean model (the theorems of {prop} are about the model): at trace entry {d.get('at')} "
+                          f"field {fld}: model {json.dumps(d.get('model'))[:300]} / implementation {json.dumps(d.get('impl'), default=str)[:300]} "
+                          f"(job with {len(c['spec']['tasks'])} tasks on {len(c['workers'])} workers, schedule seed {c['seed']}, {'fifo' if c['fifo'] else 'anyOrder'})")
+            return
 
 
 def replay(payload, prop):
     c = payload["case"]
+    if c.get("tie"):
+        d, res = tie_diff(prop, c)
+        print("job:", json.dumps(c["spec"]))
+        print("workers:", c["workers"], "seed:", c["seed"], "fifo:", c["fifo"])
+        print("outcome on the real controller:", res["outcome"], res.get("exception", ""))
+        print("first disagreement with the Lean model:", json.dumps(d, default=str)[:1500] if d else None)
+        return 1 if d else 0
     if "bridge_shell_seed" in c:
         from ekw import ctrl_bridge
         import random
         fails, _ = ctrl_bridge.check_bridge(random.Random(c["bridge_shell_seed"]))
         print("real Bridge shell:", fails)
         return 1 if fails else 0
-    res = S.run_case(c["spec"], c["workers"], c["seed"], c["fifo"], none_output=c.get("none_output"), report=c.get("report", False))
+    if "bridge_init_seed" in c:
+        from ekw import ctrl_bridge
+        import random
+        fails, _ = ctrl_bridge.check_bridge_init(random.Random(c["bridge_init_seed"]))
+        print("real Bridge.__init__ fed with real ExecutorRegistration messages:", fails)
+        return 1 if fails else 0
+    res = S.run_case(c["spec"], c["workers"], c["seed"], c["fifo"], none_output=c.get("none_output"), report=c.get("report", False), prior_seeds=c.get("prior_seeds", ()))
     fails = [x for x in S.oracle(res, c["fifo"]) if x[0] == prop]
     print("job:", json.dumps(c["spec"]))
     print("workers:", c["workers"], "seed:", c["seed"], "fifo:", c["fifo"])
+    if c.get("prior_seeds"):
+        print("the same JobInstance and Preschedule were first run to the end under the schedule seeds", c["prior_seeds"], "->", res.get("prior_outcomes"))
     for x in res["trace"][1:]:
         print(json.dumps({k: v for k, v in x.items() if k != "impl"})[:200])
     print("outcome:", res["outcome"], "oracle:", fails)
